@@ -1005,12 +1005,12 @@ def build(reg):
     from . import plugmeta
 
     specs = specs + plugmeta.add_plugmeta(reg)
-    from . import packerpg, pluginmisc
+    from . import entrypoints, packerpg, pluginmisc
 
-    specs = specs + pluginmisc.add_pluginmisc(reg) + [x for x in packerpg.add_packerpg(reg) if "C16" in x.props]  # the small functions around registration and lookup (bodies verified on their own)
+    specs = specs + entrypoints.add_entrypoints(reg) + pluginmisc.add_pluginmisc(reg) + [x for x in packerpg.add_packerpg(reg) if "C16" in x.props]  # the small functions around registration and lookup (bodies verified on their own)
     return {
         "verify": specs,
         "lemmas": [("total-order", lemma_total_order)],
-        "trusted": ["T4 list.sort/sorted yield an ordered permutation provided < is a strict weak order (the proviso is lemma total-order/strict-weak-order-for-sort)", "T5 pydantic field access returns the stored field values"] + epnames.T_EPN + pluginmisc.T_MISC,
+        "trusted": ["T4 list.sort/sorted yield an ordered permutation provided < is a strict weak order (the proviso is lemma total-order/strict-weak-order-for-sort)", "T5 pydantic field access returns the stored field values"] + epnames.T_EPN + pluginmisc.T_MISC + entrypoints.T_EPS,
         "assumptions": [],
     }
